@@ -78,6 +78,7 @@ func (w *World) initTags() {
 // DocSpec bounds the shape of lazily materialised documents.
 type DocSpec struct {
 	A, O, S    int      // max array length, object members, string length (code points)
+	ANested    int      // if > 0: max length of arrays below the root level
 	Keys       []string // key alphabet for objects
 	StrMode    int      // 0: ASCII bytes, 1: valid UTF-8 with symbolic widths, 2: arbitrary bytes, 3: from alphabet StrAlpha
 	StrAlpha   []string // for StrMode 3: concrete candidate strings
@@ -102,6 +103,7 @@ type LazyV struct {
 	Depth  int
 	Res    *IfaceV
 	ChildU uint32
+	Level  int // 0 for a root created by vrtDoc
 }
 
 func (in *Interp) newLazy(name string, depth int, universe uint32, childU uint32) *LazyV {
@@ -285,6 +287,9 @@ func (in *Interp) resolve(l *LazyV, tag int) {
 		iv = IfaceV{T: tt, V: in.symNumStr(nm+"_n", spec)}
 	case TArr:
 		maxLen := spec.A
+		if l.Level >= 1 && spec.ANested > 0 {
+			maxLen = spec.ANested
+		}
 		if l.Depth <= 0 {
 			maxLen = 0
 		}
@@ -295,7 +300,9 @@ func (in *Interp) resolve(l *LazyV, tag int) {
 		}
 		arr := &ArrayV{Elems: make([]Value, c), Org: OrgDoc, ET: in.W.TAny}
 		for i := 0; i < n; i++ {
-			arr.Elems[i] = in.newLazy(fmt.Sprintf("%s_e%d", l.Name, i), l.Depth-1, l.ChildU, l.ChildU)
+			c := in.newLazy(fmt.Sprintf("%s_e%d", l.Name, i), l.Depth-1, l.ChildU, l.ChildU)
+			c.Level = l.Level + 1
+			arr.Elems[i] = c
 		}
 		if c > n {
 			arr.Elems[n] = IfaceV{T: in.W.TString, V: ConcStr("<spare>")}
@@ -323,7 +330,9 @@ func (in *Interp) resolve(l *LazyV, tag int) {
 		m := &MapV{Org: OrgDoc, KT: in.W.TString, VT: in.W.TAny, ID: l.ID}
 		for _, k := range ks {
 			m.Keys = append(m.Keys, ConcStr(k))
-			m.Vals = append(m.Vals, in.newLazy(l.Name+"_"+k, l.Depth-1, l.ChildU, l.ChildU))
+			c := in.newLazy(l.Name+"_"+k, l.Depth-1, l.ChildU, l.ChildU)
+			c.Level = l.Level + 1
+			m.Vals = append(m.Vals, c)
 		}
 		iv = IfaceV{T: tt, V: m}
 	case TInt, TInt8, TInt16, TInt32, TInt64, TUint, TUint8, TUint16, TUint32, TUint64:
